@@ -392,7 +392,7 @@ let run_lterm (args : sexp list) : string =
   let showo = function Some t -> show t | None -> "none" in
   let panico = function Some t -> show t | None -> "panic" in
   match args with
-  | [A "eq"; a; b] ->
+  | [A ("eq" | "eqm"); a; b] ->
     let (a, b) = (pt a, pt b) in
     let e = term_eqb a b in
     Printf.sprintf "%b sym=%b refl=%b hash_equal=%b map_lookup=%b" e (term_eqb b a) (term_eqb a a)
